@@ -653,7 +653,7 @@ func Run(c *core.Ctx) core.FinishOpts {
 	l := &lawChecker{c: c, selftest: os.Getenv("VERIF_SELFTEST") == "1"}
 	u := vals.Universe()
 	t0 := time.Now()
-	if c.Only == "" || !strings.HasPrefix(c.Only, "op/") {
+	if c.Only == "" || !strings.HasPrefix(c.Only, "op") {
 		l.exhaustive(u)
 		c.Note("wall_exhaustive_s", time.Since(t0).Seconds())
 		t0 = time.Now()
@@ -698,12 +698,41 @@ func Run(c *core.Ctx) core.FinishOpts {
 		}
 		l.operatorPair(id, u[p.i], u[p.j], l.selftest && pi%500 == 7)
 	})
+	// random deep pairs through the same operator leg
+	nr := c.Pick(40, 800)
+	rr := c.Rng("operator-random")
+	o := vals.GenOpts{NaN: true, Zeros: true}
+	var rps [][2]vals.Named
+	for guard := 0; len(rps) < nr && guard < nr*50; guard++ {
+		a := vals.Random(rr, 2, o)
+		if a.TypeID == octosql.TypeIDNull {
+			continue
+		}
+		var b octosql.Value
+		if rr.Intn(5) == 0 {
+			b = a
+		} else {
+			b = vals.Mutate(rr, a, o)
+		}
+		if b.TypeID == octosql.TypeIDNull {
+			continue
+		}
+		rps = append(rps, [2]vals.Named{{Name: vals.Describe(a), V: a}, {Name: vals.Describe(b), V: b}})
+	}
+	core.Parallel(len(rps), 16, func(pi int) {
+		id := fmt.Sprintf("opr/%d", pi)
+		if c.Only != "" && c.Only != id {
+			return
+		}
+		l.operatorPair(id, rps[pi][0], rps[pi][1], false)
+		c.Count("operator_pairs/random_deep", 1)
+	})
 	c.Note("wall_operators_s", time.Since(t0).Seconds())
 	return core.FinishOpts{
 		Level: "exploration",
 		Rule: "law leg: all ordered triples of the value universe (exhaustive) plus seeded random triples of related deep values; operator leg: every ordered pair of same-kind non-NULL universe values (quick: one order, both orders when Compare==0 with different bits) and every (quick: every 6th) cross-kind pair, " +
 			"each run through 11 SQL queries over memdb tables (70 filler keys between the two rows so hash tables grow past their initial size); non-trivial = three (two) bit-distinct values of the same kind; distinct by value bits",
-		Floor:       c.Pick(10000, 100000),
+		Floor:       c.Pick(10000, 60000),
 		Assumptions: []string{"oracle: the order laws and agreement of every operator's verdict with Compare's", "memdb tables declare the harness' own type of the values", "Go toolchain"},
 		Exhaustive:  true,
 	}
